@@ -33,7 +33,7 @@ class QasmExporter(QCircuitExporter):
                 continue
 
             qbs = list(map(lambda gq: _selfqc.get_key_by_index(gq), ws))
-            if p:
+            if p is not None:
                 gate_qasm += f'\t{g.__name__.lower()}({p:.2f}) {" ".join(qbs)}\n'
             else:
                 gate_qasm += f'\t{g.__name__.lower()} {" ".join(qbs)}\n'
@@ -64,7 +64,7 @@ class QasmExporter(QCircuitExporter):
                 continue
 
             qbs = list(map(lambda gq: _selfqc.get_key_by_index(gq), ws))
-            if p:
+            if p is not None:
                 gate_qasm += f'\t{g.__name__.lower()}({p:.2f}) {" ".join(qbs)}\n'
             else:
                 gate_qasm += f'\t{g.__name__.lower()} {" ".join(qbs)}\n'
